@@ -89,8 +89,15 @@ let () = iter_lines (fun line ->
     let locate bkf k = let r = ref (-1) in
       for i = 0 to (1 lsl ni) - 1 do if !r < 0 && Stdlib.List.exists (fun x -> string_of_z x = string_of_z k) (bkf (z_of_int i)) then r := i done; !r in
     let z0 = z_of_int 0 in
+    (* the extracted tables are chains of closures (one layer per operation); re-tabulate after every step so a lookup stays O(1).
+       Semantically the identity on [0, 2^n): same bk / bd values at every bucket index. *)
+    let flatten : 'a. 'a OpenTable.table -> 'a OpenTable.table = fun s ->
+      let nb = 1 lsl ni in
+      let a = Array.init nb (fun i -> OpenTable.bk s (z_of_int i)) and d = Array.init nb (fun i -> OpenTable.bd s (z_of_int i)) in
+      { OpenTable.bk = (fun i -> let j = int_of_z i in if j >= 0 && j < nb then a.(j) else OpenTable.bk s i);
+        OpenTable.bd = (fun i -> let j = int_of_z i in if j >= 0 && j < nb then d.(j) else OpenTable.bd s i) } in
     if kind = "o2" || kind = "o2f" then begin
-      let st = Stdlib.List.fold_left (fun s (a, k, _) ->
+      let st = Stdlib.List.fold_left (fun s0 (a, k, _) -> let s = flatten s0 in
         if a then (match OpenInstances.o2_add (z_of_int 3) nz h s k (((hcode k, nz), z0), z0) with
           | Some s' -> Hashtbl.replace present (string_of_z k) k; Hashtbl.remove removed (string_of_z k); s' | None -> full := true; s)
         else (let b = locate (OpenTable.bk s) k in
@@ -104,7 +111,7 @@ let () = iter_lines (fun line ->
         (dump (OpenTable.bk st) (fun i -> BucketOps.O2.dec (OpenTable.bd st i)) (fun i -> BucketOps.O2.cnt (OpenTable.bd st i))) ok !full
     end else begin
       let mc = z_of_int 7 in
-      let st = Stdlib.List.fold_left (fun s (a, k, _) ->
+      let st = Stdlib.List.fold_left (fun s0 (a, k, _) -> let s = flatten s0 in
         if a then (match OpenInstances.n1_add false mc nz h s k (((hcode k, nz), z0), z0) with
           | Some s' -> Hashtbl.replace present (string_of_z k) k; Hashtbl.remove removed (string_of_z k); s' | None -> full := true; s)
         else (let b = locate (OpenTable.bk s) k in
